@@ -254,6 +254,20 @@ Proof.
   unfold post_opt in P. destruct (lincomb_fuel _ _ _ _ _ s) as [s' | | |]; [eauto | contradiction | contradiction | contradiction].
 Qed.
 
+(* the same at the level of NumpyTensorSpace._lincomb: regime chosen by the regenerated dispatch *)
+Lemma lincomb_impl_poison (fl bdt : bool) (f1 f2 fo : bool * bool) (a b : T) (i1 i2 io : nat)
+      (s : store (option T)) (x1 x2 : list T) :
+  s i1 = map Some x1 -> s i2 = map Some x2 ->
+  length x1 = length x2 -> length (s io) = length x1 ->
+  exists s', lincomb_impl (fun u => u) fl bdt [f1; f2; fo] (Some a) i1 (Some b) i2 io s = Ok s'
+          /\ s' io = map Some (vlin a x1 b x2)
+          /\ forall j, j <> io -> s' j = s j.
+Proof.
+  intros H1 H2 L12 Lo. unfold lincomb_impl, lincomb_impl_sz.
+  apply lincomb_poison_ok; try assumption.
+  intros Er. apply (blas_regime_sound (Z.of_nat (length (s i1))) fl bdt f1 f2 fo). exact Er.
+Qed.
+
 Lemma set_zero_direct_counterexample (bi : blasinfo) :
   is_guarded direct_body = false ->
   exists (i : nat) (s : store (option T)) (s' : store (option T)),
